@@ -254,7 +254,9 @@ def rule_recognition(ctx, mod, sh, mean, model):
                     raise AnalysisError("determine(%s%s, inversion %d): %s" % (L, key, r, e))
                 ok, why = True, ""
                 if len(ps) != 1 or len(pl) != 1:
-                    ok, why = False, "recognition branches on something undetermined (%d / %d paths)" % (len(ps), len(pl))
+                    labels = sorted({lab for p_ in ps + pl for lab, _v in p_.trace})
+                    ok, why = False, "recognition branches on something the chord does not determine (%d / %d paths): %s" % (
+                        len(ps), len(pl), "; ".join(short(x, 110) for x in labels[:3]))
                 elif ps[0].kind != "return" or not isinstance(ps[0].value, list):
                     ok, why = False, "shorthand form: %s %r" % (ps[0].kind, ps[0].value)
                 elif pl[0].kind != "return" or not isinstance(pl[0].value, list):
